@@ -609,9 +609,6 @@ const (
 
 type gen struct {
 	c *hmain.Ctx
-	// set while a family is generated whose gelf documents are judged by the model's own predicate
-	// (every chunk must be a JSON document) instead of the generation-time oracle check
-	noGelfOracle bool
 }
 
 // mkEv builds the case form of an event for a sink; fields = the ES index values (nil otherwise)
@@ -663,11 +660,9 @@ func (g *gen) mkEv(kind int, enc []byte, fields []string, which int, rawHTTP boo
 		}
 	case which == 5:
 		a := gelfOracle(enc)
-		if !g.noGelfOracle {
-			w.Oracle("gelf: the rewritten event is one JSON document without NUL", json.Valid(a) && bytes.IndexByte(a, 0) < 0, string(a))
-			ok, detail := gelfTimestampRule(root, a)
-			w.Oracle("gelf: a numeric time is divided by 1000 while above 1e12 (at most twice); below 1e9, or not a number / date, it becomes the clock (second implementation of makeTimestampField)", ok, detail)
-		}
+		w.Oracle("gelf: the rewritten event is one JSON document without NUL", json.Valid(a) && bytes.IndexByte(a, 0) < 0, string(a))
+		ok, detail := gelfTimestampRule(root, a)
+		w.Oracle("gelf: a numeric time is divided by 1000 while above 1e12 (at most twice); below 1e9, beyond the float64 range, or not a number / date, it becomes the clock (second implementation of makeTimestampField)", ok, detail)
 		alt = hx.B(a)
 	}
 	return hx.L(hx.I(kind), hx.B(enc), hx.L(raws...), hx.L(escs...), hx.S(topic), alt)
